@@ -72,6 +72,18 @@ def run(R, job):
                 samples.append({"how": how, "s": s, "out": out[:120]})
         if len(fails) >= 3:
             break
+    # numbers are rendered as their str() text UNDER THE SAME RULE: also numbers whose str() contains metacharacters
+    class PValue(float):
+        def __str__(self): return "<0.001 & falling"
+    class Flag(int):
+        def __str__(self): return "<Flag.A: 1>"
+    for num, adders in ((PValue(0.00004), "ctor append list"), (Flag(1), "ctor append list")):
+        e = expected(str(num))
+        for how, t in (("ctor", core.Tag("td", num)), ("append", (lambda x: (x.append(num), x)[1])(core.Tag("td"))), ("list", core.Tag("td", [num]))):
+            checked += 1
+            out = t.get_html_string()
+            if out != "<td>" + e + "</td>":
+                fails.append({"input": f"{how}: a {type(num).__name__} child whose str() is {str(num)!r}", "observed": out, "expected": "<td>" + e + "</td>"})
     for num in (0, 1, -5, 2.5, 1e21, True):
         checked += 1
         out = core.Tag("div", num).get_html_string()
